@@ -101,6 +101,11 @@ def gen(tier):
     for insts in clashes:
         for chain in (False, True):
             yield {"tag": "clash", "insts": insts, "chain": chain, "deps": [":base"], "run": False}
+    # names that merely resemble each other (prefix / substring / suffix of the group's name, of each other): no clash
+    for gname, inames in (("base-vs-new", ["base", "new"]), ("sweep-1-2", ["1", "2", "sweep-1"]), ("g", ["g-1", "gg"]), ("ab", ["a", "b"])):
+        for chain in (False, True):
+            yield {"tag": "similar-names", "gname": gname, "insts": [(nm, [], {"i": k}, False) for k, nm in enumerate(inames)], "chain": chain,
+                   "deps": [":base"], "run": True}
     # two groups in different COND files (one depending on the other) whose instances have the same names
     for k in (1, 2):
         for chain in (False, True):
@@ -167,10 +172,10 @@ def load_graph(files, target="//:g"):
     return ("ok", g)
 
 
-def run_form(files):
+def run_form(files, gname="g"):
     root = driver.fresh_project(files, name="c19")
     vk = vkmod.VK(project_root=root)
-    r = driver.run_cli(["run", "//:g", "-j", "2"], root, vk=vk, git=fakegit.NO_GIT, clock=driver.Clock())
+    r = driver.run_cli(["run", "//:" + gname, "-j", "2"], root, vk=vk, git=fakegit.NO_GIT, clock=driver.Clock())
     spawns = [(e[2], e[3]["argv"], e[3]["deps"], e[3]["slot"], e[3]["out"], e[3]["cwd"]) for e in vk.log if e[0] == "spawn"]
     tree = {}
     co = os.path.join(root, "cond-out")
@@ -210,8 +215,8 @@ def run_case(case, found, res):
         gsrc = listsrc.replace("experiments=" + lit, "experiments=" + wrapped, 1)
         esrc = expand_src("g", "./exp.sh", case["insts"], bool(case["chain"]), case["deps"])
     elif case.get("insts") is not None:
-        gsrc = group_src("g", "./exp.sh", case["insts"], case["chain"], case["deps"], raw_insts=case.get("raw_group_insts"))
-        esrc = expand_src("g", "./exp.sh", case["insts"], bool(case["chain"]), case["deps"])
+        gsrc = group_src(case.get("gname", "g"), "./exp.sh", case["insts"], case["chain"], case["deps"], raw_insts=case.get("raw_group_insts"))
+        esrc = expand_src(case.get("gname", "g"), "./exp.sh", case["insts"], bool(case["chain"]), case["deps"])
     else:
         gsrc = group_src("g", "./exp.sh", None, case["chain"], case["deps"], raw_insts=case["raw"])
         esrc = None
@@ -229,14 +234,14 @@ def run_case(case, found, res):
 
     res["evals"] += 1
     res["programs"] += 1
-    a = load_graph(fg)
+    a = load_graph(fg, target="//:" + case.get("gname", "g"))
     if esrc is None:
         if a[0] != "rejected":
             viol("malformed-accepted", "malformed experiments %s accepted" % case["raw"])
         return
     fe = {"COND": SUPPORT + esrc, "p/COND": SUPPORT_P}
     fe.update(extra_e)
-    b = load_graph(fe)
+    b = load_graph(fe, target="//:" + case.get("gname", "g"))
     if a[0] != b[0]:
         viol("accept-reject-disagree:%s" % case["tag"], "group form %s, explicit form %s\n%s\n%s" % (a, b[:1] + (b[1] if b[0] != "ok" else "",), gsrc, esrc))
         res["disagreements"] += 1
@@ -248,7 +253,7 @@ def run_case(case, found, res):
         return
     if a[0] == "ok" and case["run"]:
         res["evals"] += 2
-        ra, rb = run_form(fg), run_form(fe)
+        ra, rb = run_form(fg, case.get("gname", "g")), run_form(fe, case.get("gname", "g"))
         for k in ("exit", "exc", "spawns", "rows", "out", "err", "tree"):
             if ra[k] != rb[k]:
                 viol("execution-differs:%s:%s" % (k, case["tag"]), "%s differs between group and explicit form: %r vs %r\n%s" % (k, ra[k], rb[k], gsrc))
